@@ -147,7 +147,13 @@ func lookupAVP(p *dict.Parser, app uint32, k dKey, v int64) dRes {
 	}
 	var r dRes
 	perr := safely(func() {
-		a, err := p.FindAVPWithVendor(app, key, vend(v))
+		var a *dict.AVP
+		var err error
+		if v == -1 {
+			a, err = p.FindAVP(app, key) // the any-vendor lookup through its own entry point
+		} else {
+			a, err = p.FindAVPWithVendor(app, key, vend(v))
+		}
 		switch {
 		case a == nil:
 		case err != nil || a.Data.TypeName == "Unknown":
@@ -183,7 +189,7 @@ func runDict(id int, c *dictCase, rev bool) dictLine {
 	for _, code := range []uint32{5001, 5002, 5003, 5004} {
 		keys = append(keys, dKey{Code: code})
 	}
-	for _, n := range []string{"X-A", "X-B", "X-C", "X-D", "X-E", "X-R", "X-S", "X-Z"} {
+	for _, n := range []string{"X-A", "X-B", "X-C", "X-D", "X-E", "X-R", "X-S", "X-V", "X-Z"} {
 		keys = append(keys, dKey{ByName: true, Name: n})
 	}
 	vendors := []int64{0, 10, 20, 30, -1}
